@@ -142,6 +142,7 @@ var Mutants = map[string][]Mutant{
 		{"setter writes the stack", "canvas.go", `func \(c \*Context\) SetStrokeWidth\(width float64\) \{\n`, "func (c *Context) SetStrokeWidth(width float64) {\n\tc.stack = nil\n", "E11.ctx-setter"},
 	},
 	"C16": {
+		{"centred spans all placed at one X", "text.go", `line\.spans\[k\]\.X -= x / 2\.0`, "line.spans[k].X = -x / 2.0", "E11.span-shift"},
 		{"breakpoint width without the hyphen", "text/linebreak.go", `\t\t\twidth := lb\.W\n\t\t\tif lb\.items\[b\]\.Type == PenaltyType \{\n\t\t\t\twidth \+= lb\.items\[b\]\.Width\n\t\t\t\}\n`, "\t\t\twidth := lb.W\n", "E11.break-width"},
 		{"penalty width taken from the previous item", "text/linebreak.go", `\t\t\t\twidth \+= lb\.items\[b\]\.Width\n`, "\t\t\t\twidth += lb.items[b-1].Width\n", "E11.break-width"},
 		{"line ascent and descent exchanged", "text.go", `\t\t\t\tascent = math\.Max\(ascent, spanAscent\)\n\t\t\t\tdescent = math\.Max\(descent, spanDescent\)\n\t\t\t\tbottom = math\.Max\(bottom, spanBottom\)\n\t\t\t\} else \{\n\t\t\t\tfor _, obj`, "\t\t\t\tascent = math.Max(ascent, spanDescent)\n\t\t\t\tdescent = math.Max(descent, spanAscent)\n\t\t\t\tbottom = math.Max(bottom, spanBottom)\n\t\t\t} else {\n\t\t\t\tfor _, obj", "E3.line-heights"},
@@ -161,6 +162,7 @@ var Mutants = map[string][]Mutant{
 		{"vertical fonts written as horizontal", "renderers/pdf/writer.go", `w\.writeFonts\(w\.fontsV, true\)`, `w.writeFonts(w.fontsV, false)`, "E5.fontmaps"},
 	},
 	"C19": {
+		{"miter limit written into the asserted copy only", "svg.go", `\t\t\tmiter\.Limit = svg\.state\.strokeMiterLimit\n\t\t\tsvg\.ctx\.SetStrokeJoiner\(miter\)\n`, "\t\t\tmiter.Limit = svg.state.strokeMiterLimit\n", "E11.copy-store"},
 		{"translate(tx) moves along both axes", "svg.go", `m = m\.Translate\(d\[0\], 0\.0\)`, "m = m.Translate(d[0], d[0])", "E11.svg-transform"},
 		{"matrix() transposed", "svg.go", `Matrix\{\{d\[0\], d\[2\], d\[4\]\}, \{d\[1\], d\[3\], d\[5\]\}\}`, "Matrix{{d[0], d[1], d[4]}, {d[2], d[3], d[5]}}", "E11.svg-transform"},
 		{"rotate accepts two arguments", "svg.go", `if len\(d\) != 1 && len\(d\) != 3 \{`, "if len(d) < 1 || 3 < len(d) {", "E11.svg-transform"},
